@@ -16,9 +16,9 @@ RULE = ('correspondence: styled bounding boxes of thick polylines and stroked tr
 PARTIAL = ['C02_join_polyline_drawn_in_bbox_partial (full statement: every pixel of a thick polyline lies in the styled bounding box; proved when no '
            'segment is a skeleton and corners lie within +-2^29; the skeleton case is covered by the search p_thick_bbox)',
            'C02_join_triangle_stroke_in_bbox_partial (stroke lines, Center / Outside, width >= 2, no skeleton segment), C02_join_triangle_fill_like_in_bbox '
-           '(width 0 and the collapsed Inside stroke) and C02_join_triangle_outline_w1_in_bbox (width 1, Center) together leave open: fill lines of rows '
+           '(width 0 and the collapsed Inside stroke) and C02_join_triangle_w1_all_drawn_in_bbox (width 1: EVERY triangle, alignment and fill; from C02_join_triangle_w1_any_drawn_in_bbox / _w1_fill_drawn_in_bbox and the collapsed case) together leave open: fill lines of rows '
            'without stroke intersection for width >= 2, the non-collapsed Inside stroke of width >= 2 (the inset corners must stay inside the vertex box), '
-           'width 1 with Inside / Outside alignment, skeleton segments; all searched by p_thick_bbox (exhaustive 7x7 / 5x5 grids for polylines: 861 221 '
+           'skeleton segments; all searched by p_thick_bbox (exhaustive 7x7 / 5x5 grids for polylines: 861 221 '
            'cases, none outside the box)']
 
 
